@@ -242,6 +242,9 @@ func oracleValue(f *sfnt.Font, extra ...[]byte) (*cycleResult, []*failure) {
 		if isPanic(err) {
 			kind = "panic"
 		}
+		if kind == "rejected" && longNameFinding(f, err) {
+			return res, append(fails, &failure{sigLongName, clip(err.Error(), 300)})
+		}
 		return res, append(fails, &failure{"read-of-written-" + kind, clip(err.Error(), 300)})
 	}
 	res.F1 = f1
@@ -433,6 +436,8 @@ func lossless(f, f1 *sfnt.Font) []*failure {
 		if d := valDiff(o.Names, o1.Names, true); d != "" {
 			if customNameCount(o.Names) > maxCustomNames {
 				fails = append(fails, &failure{sigPostNames, clip(d, 200)})
+			} else if hasLongName(o.Names) {
+				fails = append(fails, &failure{sigLongName, clip(d, 200)})
 			} else {
 				bad("Outlines.Names", "%s", clip(d, 300))
 			}
